@@ -154,19 +154,21 @@ def subst(fmt, args):
 
 
 def run(ctx, log):
-    side = [("type([print(\"element\")])", "OK #0=S108.105.106.115.116", "element"), ("stel n = 0; functie tel() { n = n + 1; n } stel t = type([tel(), tel()]); [t, n]", None, None),
+    side0 = [("print([\"{}\", \"{}\"], \"links\", \"rechts\")", "OK n", "[links, rechts]"), ("print([1, \"a{}b\"], 7, 8)", "OK n", "[1, a7b]"), ("print(12, 5)", "OK n", "12"), ("print(ja, 1)", "OK n", "ja"),
+             ("print(\"{} van {} klaar\", 3); print(\"{} {} {}\"); 1", "OK i1", "3 van {} klaar\n{} {} {}"), ("print(\"{}{}{}{}\", 1, 2); 2", "OK i2", "12{}{}"), ("print(\"{}\", \"{}\", 5); print(\"{} {}\", \"{}\", 5); 3", "OK i3", "{}\n{} 5")]
+    side = side0 + [("type([print(\"element\")])", "OK #0=S108.105.106.115.116", "element"), ("stel n = 0; functie tel() { n = n + 1; n } stel t = type([tel(), tel()]); [t, n]", None, None),
             ("type([int(\"abc\")])", "ERR Argument", ""), ("lengte([onbekend_])", "ERR Reference", ""), ("functie p(x) { print(\"p{}\", x); x }; [type(p(1)), lengte([p(2), p(3)]), bool(p(0)), string(p(4)), int(p(5)), float(p(6))]", None, "p1\np2\np3\np0\np4\np5\np6"),
             ("functie p(x) { print(\"p{}\", x); x } print(\"{} {}\", p(1), [p(2), [p(3)]])", "OK n", "p1\np2\np3\n1 [2, [3]]"), ("type(als ja { print(\"tak\"); 1 })", "OK #0=S105.110.116", "tak")]
     so = vlib.nlh("eval", ["5000 " + vlib.hexs(x) for x, _, _ in side], tag="c14side")
-    tname = progcheck.decode_value(so[0].split(" | ")[0][3:]) if so[0].startswith("OK") else None
     for (x, h, out_), o in zip(side, so):
         ctx.seen(("builtin-argument-effects", x))
         ctx.count("builtin-argument-effects")
         got_out = progcheck.decode_cp(o.split(" | ")[1][4:]) if " | OUT " in o else ""
         if (h is not None and h not in ("OK #0=S108.105.106.115.116",) and progcheck.head(o) != h) or (out_ is not None and got_out.rstrip("\n") != out_):
             ctx.violate("the arguments of a builtin were not all evaluated, once, left to right, before the call", source=x, observed=(progcheck.head(o) + " printing " + repr(got_out))[:300], expected="%s printing %r" % (h, out_))
-    if so[1].startswith("OK") and progcheck.decode_value(so[1].split(" | ")[0][3:])[1] != 2:
-        ctx.violate("the elements of an array literal passed to a builtin were not evaluated", source=side[1][0], observed=so[1][:200], expected="[<type name>, 2]")
+    k_ = [i for i, t_ in enumerate(side) if "tel(), tel()" in t_[0]][0]
+    if not so[k_].startswith("OK") or progcheck.decode_value(so[k_].split(" | ")[0][3:])[1] != 2:
+        ctx.violate("the elements of an array literal passed to a builtin were not evaluated", source=side[k_][0], observed=so[k_][:200], expected="[<type name>, 2]")
     # a failing line that completed nothing leaves a retained session as it was (every kind of failure, at every depth)
     progcheck.run_failing_lines(ctx, log)
     # the same small programs at every size around the widths the implementation encodes things in (closed-form results)
